@@ -15,3 +15,10 @@ Print Assumptions C20_iana_constants_assigned_and_distinct.
 Theorem C20_domain_nonempty : (190 <= Z.of_nat (List.length IanaGen.consts))%Z.
 Proof. exact IanaProofs.domain_size. Qed.
 Print Assumptions C20_domain_nonempty.
+
+(* The constants are those of every build configuration: compiled under each build tag that the library's own sources
+   mention (the translator collects them from the //go:build lines and compiles package iana once per tag), no
+   exported constant is absent, added or given another value. *)
+Theorem C20_same_constants_under_every_build_tag : IanaGen.tag_variants = nil.
+Proof. exact IanaProofs.no_tag_variants. Qed.
+Print Assumptions C20_same_constants_under_every_build_tag.
